@@ -251,6 +251,22 @@ CLAIMED = {
              'under the global context.',
         technique='Coq proofs by nested induction over a statement grammar (erasure inverse, line-number inclusion, evaluation counts) + structural correspondence with the real AST transformer',
         design='5/C05'),
+    'C15': dict(
+        text='Machine-checked (Coq 8.16.1): for any number of threads and every schedule, the get-or-create-under-a-lock '
+             'discipline (acquire, look up, create on a miss, store, release) hands every two completed calls for one key '
+             'the same object - the one the table records - and in every reachable state with an unfinished call some '
+             'thread can step (no deadlock); the same steps without the lock are machine-refuted. The model is the '
+             'discipline of BeartypeConf.__new__, the TypeHint wrapper cache and hook registration, whose lock scopes '
+             'are re-read from the source on every run. Real threads are driven through BeartypeConf, TypeHint, '
+             'beartype_packages, is_bearable, @beartype and a @callable_cached probe under a seeded line-level '
+             'scheduler (sys.settrace): every schedule must terminate, raise nothing, share one object per equal key, '
+             'lose no registration, and the unlocked probe exhibits the refuted schedule.',
+        note='Trusted: Coq kernel; the hand-written five-step model (one table standing for three real ones); the '
+             'scheduler works at source-line granularity inside ten beartype files, not at bytecode granularity and not '
+             'inside C code; object pools and per-object attribute caches are exercised, not modelled. All theorems '
+             'closed under the global context.',
+        technique='Coq invariant proof over all schedules of an n-thread small-step model (mutual exclusion, agreement, progress) + refutation of the unlocked variant + controlled-scheduler execution of real threads',
+        design='5/C15'),
     'C04': dict(
         text='Machine-checked (Coq 8.16.1): for every signature over the five parameter kinds with pairwise '
              'distinct names and every call that CPython\'s binding rule accepts, the values selected by the '
